@@ -543,6 +543,26 @@ func main() {
 			G.merge(st)
 		})
 	}
+	// ---- (B-str) compositional strings: every string of <= SL atoms, in every fixed context ----
+	SL := r.Pick(3, 4)
+	strs := strSpace(SL)
+	fixed := make([]bool, len(strs))
+	for i, x := range strs {
+		fixed[i] = inFixedLists(x)
+	}
+	nctx := len(strContexts)
+	nstr := len(strs) * nctx
+	report.ParallelFor((nstr+encChunk-1)/encChunk, func(ci int) {
+		st := newStats()
+		for i := ci * encChunk; i < (ci+1)*encChunk && i < nstr; i++ {
+			si, ctx := i/nctx, i%nctx
+			encOne(strValue(ctx, strs[si]), st, "B.str", ctx == 0 || !r.Thorough())
+			if !fixed[si] {
+				st.n["B.str.new"]++
+			}
+		}
+		G.merge(st)
+	})
 	others := otherValues()
 	for _, name := range others {
 		fails, _ := checkOther(name)
@@ -585,26 +605,29 @@ func main() {
 		"B_keys":               keyNames(),
 		"B_depth3_scalars":     scalars3,
 		"B_depth3_keys":        keys3,
+		"B_string_atoms":       quoteAll(strAtoms),
+		"B_string_max_atoms":   SL,
+		"B_string_contexts":    strContexts,
 		"B_container_kinds":    []string{"array", "imarray", "map", "immap"},
 		"script_decode_inputs": fmt.Sprintf("all symbol strings of length <= %d, all string literals of <= 2 atoms, the number family; each as bytes and as string", LS),
 		"script_encode_values": "all depth-1 and depth-2 values; every 64th index of the depth-3 space",
 	})
-	r.Set("bounds", fmt.Sprintf("decoder: length <= %d over %d symbols (%d strings), length %d over the %d-symbol sub-alphabet (%d strings), string literals of <= %d atoms over %d atoms; encoder: depth <= %d, width <= 2", L, nsym, G.n["A.inputs"], L+1, len(subSyms), G.n["A+.inputs"], K, na, r.Pick(2, 3)))
+	r.Set("bounds", fmt.Sprintf("decoder: length <= %d over %d symbols (%d strings), length %d over the %d-symbol sub-alphabet (%d strings), string literals of <= %d atoms over %d atoms; encoder: depth <= %d, width <= 2, plus every string of <= %d atoms over %d atoms in %d fixed contexts", L, nsym, G.n["A.inputs"], L+1, len(subSyms), G.n["A+.inputs"], K, na, r.Pick(2, 3), SL, len(strAtoms), nctx))
 	r.Assume("reference = host toolchain's encoding/json (Valid; Decoder with UseNumber); number typing = literal has one of . e E; values per strconv.ParseInt/ParseFloat")
 	r.Assume("strings that are not valid UTF-8 (values or keys) and NaN/Inf are not JSON-representable: for them only 'no panic', 'valid JSON if no error' and agreement modulo the U+FFFD coercion every JSON reader applies are required")
 	r.Assume("Bytes, Char, Time, Error and function values are outside the property's value set: checked for 'no panic' only; cyclic containers are not encoded at all (unbounded recursion is a fatal stack overflow, not a recoverable panic)")
 	r.Assume("key order of maps with two keys follows Go's map iteration and is not controllable; all comparisons are structural and therefore order-independent")
 	r.Assume("immutable arrays/maps count as arrays/maps; a round trip returns their mutable form")
-	states := G.n["A.inputs"] + G.n["A+.inputs"] + G.n["A2.new"] + G.n["A3.new"] + G.n["B.depth1.values"] + G.n["B.depth2.values"] + G.n["B.depth3.values"]
+	states := G.n["A.inputs"] + G.n["A+.inputs"] + G.n["A2.new"] + G.n["A3.new"] + G.n["B.depth1.values"] + G.n["B.depth2.values"] + G.n["B.depth3.values"] + G.n["B.str.new"]
 	decCalls := G.n["A.inputs"] + G.n["A+.inputs"] + G.n["A2.inputs"] + G.n["A3.inputs"]
 	scriptRuns := G.n["S.decode-script-runs"] + G.n["S.encode-script-runs"]
 	r.Finish(report.Coverage{
 		States:      states,
 		Transitions: decCalls + G.n["B.encode-decode-calls"] + scriptRuns + G.n["B.other-type-values(no-panic-only)"],
 		Validated:   G.n["A.inputs"] + G.n["A+.inputs"] + G.n["A2.new"] + G.n["A3.new"] + G.n["B.compared-with-encoding/json"],
-		Evaluations: decCalls + G.n["B.depth1.values"] + G.n["B.depth2.values"] + G.n["B.depth3.values"] + scriptRuns + G.n["B.other-type-values(no-panic-only)"],
-		Nontrivial:  G.n["A.valid"] + G.n["A+.valid"] + G.n["A2.new-valid"] + G.n["A3.new-valid"] + G.n["B.depth1.values"] + G.n["B.depth2.values"] + G.n["B.depth3.values"],
-		Rule:        "decoder inputs: every string of <= L symbols over the prefix-free 26-symbol alphabet (prefix-free => distinct symbol sequences are distinct byte strings), every string of exactly L+1 symbols over a 15-symbol sub-alphabet, plus every string literal of <= K atoms over a prefix-free atom set and three explicit families, each counted only if not already contained in an earlier part (membership decided by unique decoding, families deduplicated by a set); encoder values: distinct by construction (distinct scalar names, ordered children, key pairs a<b; depth-3 indices whose children are all scalars are skipped as duplicates of depth 2). state = one distinct input/value; transition = one Decode/Encode call or script run on the implementation; validated = inputs whose accept/reject verdict (and, when valid, value) was compared with encoding/json + encoder values whose text encoding/json read back; non-trivial = distinct decoder inputs that encoding/json calls valid + all encoder values",
+		Evaluations: decCalls + G.n["B.depth1.values"] + G.n["B.depth2.values"] + G.n["B.depth3.values"] + G.n["B.str.values"] + scriptRuns + G.n["B.other-type-values(no-panic-only)"],
+		Nontrivial:  G.n["A.valid"] + G.n["A+.valid"] + G.n["A2.new-valid"] + G.n["A3.new-valid"] + G.n["B.depth1.values"] + G.n["B.depth2.values"] + G.n["B.depth3.values"] + G.n["B.str.new"],
+		Rule:        "decoder inputs: every string of <= L symbols over the prefix-free 26-symbol alphabet (prefix-free => distinct symbol sequences are distinct byte strings), every string of exactly L+1 symbols over a 15-symbol sub-alphabet, plus every string literal of <= K atoms over a prefix-free atom set and three explicit families, each counted only if not already contained in an earlier part (membership decided by unique decoding, families deduplicated by a set); encoder values: distinct by construction (distinct scalar names, ordered children, key pairs a<b; depth-3 indices whose children are all scalars are skipped as duplicates of depth 2; composed strings are deduplicated by a set, and a composed-string value is counted only if its string is in none of the fixed scalar/key lists, which is conservative). state = one distinct input/value; transition = one Decode/Encode call or script run on the implementation; validated = inputs whose accept/reject verdict (and, when valid, value) was compared with encoding/json + encoder values whose text encoding/json read back; non-trivial = distinct decoder inputs that encoding/json calls valid + all encoder values",
 	})
 }
 
